@@ -1,7 +1,7 @@
 """C09 — the cached, sparse and seed coherence paths equal the dense computation.
 
-Correspondence: the cache model of `CohBase.lean` (driver `drvC09`, K = binary64 pairs; INTENDED
-behaviour = what the dense Welch path gives) against cache_fft + cache_to_*, SparseCoherenceAnalyzer
+Correspondence: the cache model of `CohBase.lean` (driver `drvC09`, K = binary64 pairs; its contract:
+equality with the dense Welch path) against cache_fft + cache_to_*, SparseCoherenceAnalyzer
 and SeedCoherenceAnalyzer; plus the dense side (`welchBin` + `coherencySpec`) against tsa.coherency.
 Oracle (never the Lean model): the dense implementation itself (get_spectra / coherency on the same
 data, the same pairs and the bins whose dense frequency lies in [lb, ub]); equality of the two memory
@@ -43,35 +43,29 @@ def cmp_last(impl, model):
 
 
 def either(base):
-    """the model answers `ok <intended> <current>`; the implementation must agree with one of the two"""
+    """kept as a hook: the model gives one answer (the repaired behaviour = the dense path)"""
+    return base
+
+
+def mk_cmp_rows(nrow):
+    """last token = nrow rows of equal length, each compared at its own scale"""
     def cmp(impl, model):
         if not (impl.startswith('ok ') and model.startswith('ok ')):
             return impl == model
-        t = model.split(' ')
-        return len(t) == 4 and any(base(impl, 'ok ' + x) for x in t[1:])
+        a, b = parse_flist(impl.split(' ')[-1]), parse_flist(model.split(' ')[-1])
+        if len(a) != len(b) or nrow <= 0 or len(a) % nrow:
+            return False
+        m = len(a) // nrow
+        return all(close_gen(a[r * m:(r + 1) * m], b[r * m:(r + 1) * m]) for r in range(nrow))
     return cmp
 
 
-def which_variant(impl, model, base=None):
-    """'intended' / 'current' / None — which of the two model answers the implementation matches"""
-    base = base or cmp_last
-    t = model.split(' ')
-    if len(t) != 4 or not impl.startswith('ok '):
-        return None
-    for name, x in zip(('intended', 'current', 'current-grid'), t[1:]):
-        if base(impl, 'ok ' + x):
-            return name
-    return None
-
-
 def cmp_grid(impl, model):
-    """first list: the dense grid, must match; second: get_freqs — today's linspace text, or (once repaired) the dense grid again"""
+    """first list: the dense grid k*Fs/N; second: utils.get_freqs = (k*(1/N))*Fs"""
     a, b = impl.split(' '), model.split(' ')
     if len(a) != 3 or len(b) != 3:
         return False
-    ok1 = close_gen(parse_flist(a[1]), parse_flist(b[1]))
-    g = parse_flist(a[2])
-    return ok1 and (close_gen(g, parse_flist(b[2])) or close_gen(g, parse_flist(b[1])))
+    return close_gen(parse_flist(a[1]), parse_flist(b[1])) and close_gen(parse_flist(a[2]), parse_flist(b[2]))
 
 
 def mk_cmp_angles(mask, circle, tol=1e-6):
@@ -97,7 +91,7 @@ def make_scenarios(rng, tier, seed):
     big = tier == 'thorough'
     out = []
     for s in range(160 if big else 36):
-        nch = rng.choice([2, 3, 3, 4, 5])
+        nch = rng.choice([2, 3, 4, 4, 5, 5])
         NFFT = rng.choice([8, 16, 16, 32, 64, 7, 15, 33] if not big else [8, 16, 32, 64, 64, 128, 7, 15, 33, 63])
         c = rng.random()
         if c < 0.12:
@@ -110,7 +104,8 @@ def make_scenarios(rng, tier, seed):
             n = rng.choice([64, 96, 128, 200, 256] if not big else [64, 128, 256, 500, 1024, 2048])
         if big and n >= 1024 and NFFT < 32:
             NFFT = 64
-        nov = None if rng.random() < 0.35 else rng.randrange(0, NFFT)
+        r_ = rng.random()
+        nov = None if r_ < 0.3 else (0 if r_ < 0.42 else rng.randrange(0, NFFT))     # explicit 0 is a value, not "unset"
         if n > 256:      # keep the number of segments of long records near 60 (the model's DFT is the naive one)
             min_step = min(NFFT, (n - NFFT) // 60 + 1)
             if nov is not None and NFFT - nov < min_step:
@@ -139,10 +134,13 @@ def make_scenarios(rng, tier, seed):
         if rng.random() < 0.3:
             a = rng.randrange(nch)
             ij.append((a, a))
-        nseed = rng.choice([0, 1, 2])
+        nseed = rng.choice([0, 1, 2, 2, 3])
         if nseed >= nch:
             nseed = 0
-        out.append({'data': gen_data(nr, nch, n).tolist(), 'NFFT': NFFT, 'nov': nov, 'win': wk,
+        data = gen_data(nr, nch, n)
+        if rng.random() < 0.3:        # tiny / very different channel amplitudes: nothing may be floored at an epsilon
+            data = data * np.array([10.0 ** rng.choice([-9, -7, -5, -3, 0, 3]) for _ in range(nch)])[:, None]
+        out.append({'data': data.tolist(), 'NFFT': NFFT, 'nov': nov, 'win': wk,
                     'winvals': None if wk == 'hann' else win_vals(wk, NFFT, nr), 'Fs': Fs,
                     'lb': lb, 'ub': ub, 'ij': ij, 'sbf': rng.random() < 0.6, 'psm': rng.random() < 0.5, 'nseed': nseed})
     return out
@@ -246,7 +244,7 @@ def cases_of(sc, R, si):
         li = int(np.searchsorted(fdense, sc['lb'], 'left'))
         out.append(Case(pre % 'freqs', 'ok ' + flist(fr), 'cache/freqs', cmp=either(cmp_last), meta=meta('freqs')))
         out.append(Case(pre % 'coherency', 'ok ' + clist(c['coherency'].reshape(-1)), 'cache/coherency', cmp=either(cmp_last), meta=meta('coherency')))
-        out.append(Case(pre % 'psd', 'ok ' + flist(c['psd'].reshape(-1)), 'cache/psd', cmp=either(cmp_last), meta=meta('psd')))
+        out.append(Case(pre % 'psd', 'ok ' + flist(c['psd'].reshape(-1)), 'cache/psd', cmp=mk_cmp_rows(c['psd'].shape[0]), meta=meta('psd')))
         nb = c['coherency'].shape[1]
         # phase comparisons: all bins for one window (on the circle); interior bins for several windows
         edge = [(li + t == 0) or (sc['NFFT'] % 2 == 0 and li + t == sc['NFFT'] // 2) for t in range(nb)]
@@ -333,6 +331,12 @@ def judge(sc, R):
         a, b = np.asarray(a), np.asarray(b)
         if a.shape != b.shape:
             return 'shape %s vs dense %s' % (a.shape, b.shape)
+        if a.ndim == 2 and a.shape[0] > 1:      # row by row: channels / pairs may differ in scale by any factor
+            for r_ in range(a.shape[0]):
+                w_ = differs(a[r_], b[r_])
+                if w_:
+                    return 'row %d: %s' % (r_, w_)
+            return None
         fin = np.isfinite(np.abs(a)) & np.isfinite(np.abs(b))
         if not np.array_equal(np.isfinite(np.abs(a)), np.isfinite(np.abs(b))):
             return 'non-finite pattern differs'
